@@ -68,7 +68,22 @@ def main():
     except common.InfraError as e:
         print("INFRASTRUCTURE FAILURE (not a verdict on the property): %s" % e)
         return 2
-    except Exception:
+    except Exception as e:
+        # An exception RAISED INSIDE THE LIBRARY (innermost frame in the repository's atsim package) on an input this check generated within the property's domain
+        # and did not expect to fail: on the unchanged tree this never happens (it would be a harness bug and show up at once); on a changed tree it means the
+        # library now refuses or crashes on a valid input of this property - a failing input, reported as such with what has been explored so far.
+        tb = traceback.extract_tb(e.__traceback__)
+        inner = tb[-1].filename if tb else ""
+        if os.sep + "atsim" + os.sep in inner and not a.replay:
+            where = "%s:%d in %s" % (os.path.relpath(inner, common.REPO) if inner.startswith(common.REPO) else inner, tb[-1].lineno, tb[-1].name)
+            harness_frame = next((f for f in reversed(tb) if os.sep + "harness" + os.sep in f.filename), None)
+            run.fail("unexpected-library-exception", "the library raised %s (%s) at %s on an input generated inside this property's domain (reached from %s)" % (
+                type(e).__name__, str(e)[:200], where, "%s:%d" % (os.path.basename(harness_frame.filename), harness_frame.lineno) if harness_frame else "?"),
+                dict(exception=type(e).__name__, message=str(e)[:500], traceback=traceback.format_exc()[-3000:]))
+            try:
+                return run.finish(level=getattr(mod, "LEVEL", "proof"))
+            except Exception:
+                pass
         traceback.print_exc()
         print("INFRASTRUCTURE FAILURE (harness exception; not a verdict on the property)")
         return 2
